@@ -7,6 +7,8 @@ import Xrl.Spec.Groups
 import Xrl.Spec.Auger
 import Xrl.Spec.Cascade
 import Xrl.Spec.JumpRatio
+import Xrl.Spec.Sums
+import Xrl.Spec.Interp2
 /-!
 # `spec.*` operations of the driver: the executable specifications in the `Float` reading
 
@@ -63,6 +65,28 @@ def dispatchSpec (T : Tables Float) (fn : String) (a : Array String) : Option St
   | "spec.edgeOrderFailures", 0 => some ("list " ++ toString (Spec.edgeOrderFailures T))
   | "spec.lineShellNamesAgree", 0 => some ("bool " ++ toString Spec.lineShellNamesAgree)
   | "spec.shapeFailures", 0 => some ("shape " ++ toString ((Spec.shapeFailures T).map (fun p => p.1 ++ ":" ++ toString p.2)))
+  | "spec.CS_Total", 2 => some (fmtE (Spec.CS_Total T (pI a[0]!) (pF a[1]!)))
+  | "spec.CSb_Total", 2 => some (fmtE (Spec.CSb_Total T (pI a[0]!) (pF a[1]!)))
+  | "spec.CSb_Photo", 2 => some (fmtE (Spec.CSb_Photo T (pI a[0]!) (pF a[1]!)))
+  | "spec.CSb_Rayl", 2 => some (fmtE (Spec.CSb_Rayl T (pI a[0]!) (pF a[1]!)))
+  | "spec.CSb_Compt", 2 => some (fmtE (Spec.CSb_Compt T (pI a[0]!) (pF a[1]!)))
+  | "spec.DCS_Rayl", 3 => some (fmtE (Spec.DCS_Rayl T (pI a[0]!) (pF a[1]!) (pF a[2]!)))
+  | "spec.DCS_Compt", 3 => some (fmtE (Spec.DCS_Compt T (pI a[0]!) (pF a[1]!) (pF a[2]!)))
+  | "spec.DCSb_Rayl", 3 => some (fmtE (Spec.DCSb_Rayl T (pI a[0]!) (pF a[1]!) (pF a[2]!)))
+  | "spec.DCSb_Compt", 3 => some (fmtE (Spec.DCSb_Compt T (pI a[0]!) (pF a[1]!) (pF a[2]!)))
+  | "spec.DCSP_Rayl", 4 => some (fmtE (Spec.DCSP_Rayl T (pI a[0]!) (pF a[1]!) (pF a[2]!) (pF a[3]!)))
+  | "spec.DCSP_Compt", 4 => some (fmtE (Spec.DCSP_Compt T (pI a[0]!) (pF a[1]!) (pF a[2]!) (pF a[3]!)))
+  | "spec.DCSPb_Rayl", 4 => some (fmtE (Spec.DCSPb_Rayl T (pI a[0]!) (pF a[1]!) (pF a[2]!) (pF a[3]!)))
+  | "spec.DCSPb_Compt", 4 => some (fmtE (Spec.DCSPb_Compt T (pI a[0]!) (pF a[1]!) (pF a[2]!) (pF a[3]!)))
+  | "spec.ComptonProfile_Partial", 3 => some (fmtE (Spec.ComptonProfile_Partial T (pI a[0]!) (pI a[1]!) (pF a[2]!)))
+  | "spec.CSb_Photo_Partial", 3 => some (fmtE (Spec.CSb_Photo_Partial T (pI a[0]!) (pI a[1]!) (pF a[2]!)))
+  | "spec.CS_Photo_Partial", 3 => some (fmtE (Spec.CS_Photo_Partial T (pI a[0]!) (pI a[1]!) (pF a[2]!)))
+  | "spec.CSb_Photo_Total", 2 => some (fmtE (Spec.CSb_Photo_Total T (pI a[0]!) (pF a[1]!)))
+  | "spec.CS_Photo_Total", 2 => some (fmtE (Spec.CS_Photo_Total T (pI a[0]!) (pF a[1]!)))
+  | "spec.CS_Total_Kissel", 2 => some (fmtE (Spec.CS_Total_Kissel T (pI a[0]!) (pF a[1]!)))
+  | "spec.CSb_Total_Kissel", 2 => some (fmtE (Spec.CSb_Total_Kissel T (pI a[0]!) (pF a[1]!)))
+  | "spec.weightFailures", 0 => some ("shape " ++ toString ((Spec.weightFailures T).map (fun p => p.1 ++ ":" ++ toString p.2)))
+  | "spec.shapeFailures2", 0 => some ("shape " ++ toString ((Spec.shapeFailures2 T).map (fun p => p.1 ++ ":" ++ toString p.2.1 ++ ":" ++ toString p.2.2)))
   | _, _ => none
 
 end Xrl
